@@ -179,8 +179,8 @@ func (fc *ProtoForkChoice) ProcessAttestation(index ValidatorIndex, blockRoot Ro
 	fc.mu.Lock()
 	defer fc.mu.Unlock()
 	// only add the vote if we can. Don't add if it's not within view.
-	blockSlot, ok := fc.protoArray.GetSlot(blockRoot)
-	if !ok || blockSlot < headSlot {
+	// (the first known slot of the root is not enough: the node of the root/slot combination must exist)
+	if _, ok := fc.protoArray.Indices()[NodeRef{Root: blockRoot, Slot: headSlot}]; !ok {
 		return false
 	}
 	return fc.voteStore.ProcessAttestation(index, blockRoot, headSlot)
